@@ -83,6 +83,7 @@ structure Cfg where
   hhFile : Bool := false
   hhLineNumber : Bool := true
   hhFragment : Bool := true
+  hhFileStylePlain : Bool := false   -- hunk-header-file-style paints nothing (style `normal`)
   mcBeginSymbol : Str := ['▼']
   mcEndSymbol : Str := ['▲']
   deriving Repr
@@ -538,10 +539,12 @@ def hunkHeaderText (cfg : Cfg) (m : M) (hh : HunkHeader) (line : Str) : Except S
     let fwln : Str :=
       (if cfg.hhFile then file else []) ++
       (if showNumber then (if cfg.hhFile then [':'] else []) ++ (toString plusLineNumber).toList else [])
-    if body = [] ∧ fwln = [] then .ok none
+    -- the Rust test is on the *painted* string: a styled empty path still yields escape sequences
+    let fwlnPainted : Bool := fwln ≠ [] || (cfg.hhFile && !cfg.hhFileStylePlain)
+    if body = [] ∧ fwlnPainted = false then .ok none
     else
       let label := if cfg.hunkLabel ≠ [] then cfg.hunkLabel ++ [' '] else []
-      let loc := if fwln ≠ [] then fwln ++ [':'] ++ (if body = [] then [' '] else []) else []
+      let loc := if fwlnPainted then fwln ++ [':'] ++ (if body = [] then [' '] else []) else []
       .ok (some (label ++ loc ++ Text.expand cfg.tab body))
 
 /-- rows of `emit_hunk_header_line` (written directly after flushing and emitting) -/
